@@ -128,3 +128,45 @@ pub fn c15_roundtrip() {
     }
     core::mem::forget(back);
 }
+
+/// C13/C01 text rendering: `Move::to_uci_string` of a move with symbolic source, target and promotion piece is
+/// the text `<from><to>[nbrq]` of exactly those - the correspondence between the key (from, to, promotion)
+/// used by the position-family harnesses and the UCI text that `find_uci` compares.
+pub fn c13_uci_text() {
+    let from = sym::sq();
+    let to = sym::sq();
+    let promo = sym::u8();
+    sym::assume(promo == 0 || (promo >= 2 && promo <= 5));
+    let mut mv = inkayaku_board::Move { bits: 0, mvvlva: 0 };
+    mv.set_source_square(from as u32);
+    mv.set_target_square(to as u32);
+    mv.set_promotion_piece(promo as u64);
+    let text = mv.to_uci_string();
+    #[cfg(not(kani))]
+    sym::note("text", text.clone());
+    let b = text.as_bytes();
+    let want_len = if promo == 0 { 4 } else { 5 };
+    assert!(b.len() == want_len, "C13 to_uci_string has the wrong length");
+    assert!(b[0] == b'a' + from % 8 && b[1] == b'8' - from / 8 && b[2] == b'a' + to % 8 && b[3] == b'8' - to / 8, "C13 to_uci_string does not spell source and target square");
+    if promo != 0 {
+        let letter = match promo { 2 => b'n', 3 => b'b', 4 => b'r', _ => b'q' };
+        assert!(b[4] == letter, "C13 to_uci_string does not spell the promotion piece");
+    }
+    core::mem::forget(text);
+}
+
+/// Parts of the text: `square_to_string` / `piece_to_string` (cheap lemma, no formatting machinery).
+pub fn c13_text_parts() {
+    let sq = sym::sq();
+    let s = inkayaku_board::square_to_string(sq as u32);
+    let b = s.as_bytes();
+    assert!(b.len() == 2 && b[0] == b'a' + sq % 8 && b[1] == b'8' - sq / 8, "C13 square_to_string does not spell the square");
+    core::mem::forget(s);
+    let p = sym::u8();
+    sym::assume(p <= 6);
+    let t = inkayaku_board::piece_to_string(p as u64);
+    let tb = t.as_bytes();
+    let want: &[u8] = match p { 0 => b"", 1 => b"p", 2 => b"n", 3 => b"b", 4 => b"r", 5 => b"q", _ => b"k" };
+    assert!(tb.len() == want.len() && (want.is_empty() || tb[0] == want[0]), "C13 piece_to_string does not spell the piece");
+    core::mem::forget(t);
+}
